@@ -430,7 +430,7 @@ pub fn engine() -> ForestEngine {
     ForestEngine {
         cfg: ForestCfg { property: "C11", extra: Some(extra), shape, enumerate_every: 0, claim: Some(claim), fork_check: false },
         level: "exploration",
-        quick_runs: 12_000,
+        quick_runs: 20_000,
         thorough_runs: 600_000,
         rule: "Seeded histories on a shared Xot with a map-heavy mix: map-style updates (insert, remove, get_mut, clear, the entry API, set_/remove_attribute, set_/remove_namespace) interleaved with node-style updates (append_attribute_node, append_namespace_node, any_append, detach/remove of attribute and namespace nodes, nodes taken from other elements, existing keys). After every step, for every element, len/is_empty/contains_key/get/get_node/iter/keys/values/nodes/to_vec/to_hashmap of attributes(), attributes_mut(), namespaces(), namespaces_mut() are compared with each other and with the model's ordered map (same nodes at the same positions), and the order of Prefix/Attribute events of outputs() and of declarations/attributes in to_string is compared with the model's order. A trace is non-trivial/distinct as for C04.",
     }
